@@ -379,8 +379,8 @@ Fixpoint run_wire (c : cfg) (d : dstate) (acq : list (Select.st * kind)) (ops : 
              end;
              (* the answers of the code before the repairs, for the known-finding witnesses *)
              match nth_error (ds_ixs d) id with
-             | Some x => of_nd (index_live c (ds_sel d) (stored_labels x) x ix2)
-             | None => L [I 0]
+             | Some x => L [of_nd (index_live c (ds_sel d) (stored_labels x) x ix2); of_conv (ix_conv (live c (ds_sel d) x))]
+             | None => L [L [I 0]; L []]
              end]
           :: run_wire c d acq rest
       | OObserve => of_observe c (ds_sel d) :: run_wire c d acq rest
